@@ -21,7 +21,8 @@ RULE = ("Hypothesis expression trees (depth <= 3) over + - * / // % divmod, inte
         "physical values with two independently drawn unit assignments (exact Fraction magnitudes), dimensionless units and bare numbers "
         "(int, Fraction, 0). exact: Fraction registry, both assignments and the reference model must give the same (value, dimension) or the "
         "same error class; forms: reflected and in-place operator forms equal the plain form and modify only the in-place target; float: "
-        "float registry incl. small ndarrays and rational powers with 1e-9 relative tolerance. Non-trivial = the two assignments differ on a "
+        "float registry incl. small ndarrays and rational powers with 1e-9 relative tolerance; offsetcmp: == != < <= > >= between two temperatures, "
+        "each expressed in kelvin/degC/degF/degR/millikelvin (incl. the values whose magnitude is 0 in one of the units), must equal the comparison in kelvin. Non-trivial = the two assignments differ on a "
         "leaf and some node combines operands in different units; distinct = distinct (tree, leaves)")
 ASSUMPTIONS = ["leaf units are restricted to units with rational positive factors so that re-expression is exact",
                "offset/log units are C06's"]
@@ -34,7 +35,7 @@ def tasks(tier, seed):
     t = [{"sub": "exact", "shard": i} for i in range(6)]
     t += [{"sub": "forms", "shard": i} for i in range(2)]
     t += [{"sub": "float", "shard": i} for i in range(3)]
-    t += [{"sub": "errors", "shard": 0}]
+    t += [{"sub": "errors", "shard": 0}, {"sub": "offsetcmp", "shard": 0}]
     return t
 
 
@@ -676,9 +677,56 @@ def run_errors(task, tier, seed, col):
     hyp_search(col, _errors_strategy(), lambda c: case_errors(c, col), max_examples=800 if tier == "quick" else 12000, seed=seed * 101)
 
 
+# ------------------------------------------------------------------------------------- comparisons across offset units
+
+TEMP_UNITS = {"kelvin": (Fraction(1), Fraction(0)), "degree_Celsius": (Fraction(1), Fraction(27315, 100)), "degree_Fahrenheit": (Fraction(5, 9), Fraction(45967, 180)),
+              "degree_Rankine": (Fraction(5, 9), Fraction(0)), "millikelvin": (Fraction(1, 1000), Fraction(0))}
+CMP_OPS = {"==": operator.eq, "!=": operator.ne, "<": operator.lt, "<=": operator.le, ">": operator.gt, ">=": operator.ge}
+
+
+def case_offsetcmp(case, col=None):
+    """Equality and ordering of two temperatures must not depend on the (absolute, offset, prefixed) units that express them."""
+    ureg = env.ureg("Fraction")
+    Ta, Tb, op = Fraction(case["Ta"]), Fraction(case["Tb"]), case["op"]
+    want = CMP_OPS[op](Ta, Tb)
+    if col is not None:
+        zero = any((T - TEMP_UNITS[u][1]) == 0 for T, u in ((Ta, case["ua"]), (Tb, case["ub"])))
+        col.case(("oc", str(Ta), str(Tb), case["ua"], case["ub"], op), case["ua"] != case["ub"], sample=case, cls="zero_magnitude" if zero else "plain")
+    sa, oa = TEMP_UNITS[case["ua"]]
+    sb, ob = TEMP_UNITS[case["ub"]]
+    a, b = ureg.Quantity((Ta - oa) / sa, case["ua"]), ureg.Quantity((Tb - ob) / sb, case["ub"])
+    s, got = attempt(CMP_OPS[op], a, b)
+    if s == "err":
+        raise Violation(f"comparison_across_offset_units_raised:{op}:{exc_class(got)}", f"{a!r} {op} {b!r}: {got!r}")
+    if bool(got) != want:
+        raise Violation(f"comparison_depends_on_units:offset:{op}", f"Q({a.magnitude},{case['ua']}) {op} Q({b.magnitude},{case['ub']}) is {got}; both in kelvin: {Ta} {op} {Tb} is {want}")
+
+
+def run_offsetcmp(task, tier, seed, col):
+    zeros = sorted({o for _, o in TEMP_UNITS.values()})
+    names = sorted(TEMP_UNITS)
+
+    @st.composite
+    def strat(draw):
+        ua, ub = draw(st.sampled_from(names)), draw(st.sampled_from(names))
+        # half of the operands have magnitude 0 in their own unit (the both-zero shortcut of __eq__ lives there)
+        def temp(u):
+            return draw(st.one_of(st.just(TEMP_UNITS[u][1]), st.just(TEMP_UNITS[u][1]), st.sampled_from(zeros), st.fractions(0, 1000, max_denominator=100)))
+        Ta, Tb = temp(ua), temp(ub)
+        if draw(st.integers(0, 4)) == 0:
+            Tb = Ta
+        return {"Ta": Ta, "Tb": Tb, "ua": ua, "ub": ub, "op": draw(st.sampled_from(sorted(CMP_OPS)))}
+
+    hyp_search(col, strat(), lambda c: case_offsetcmp(c, col), max_examples=1500 if tier == "quick" else 30000, seed=seed * 229)
+
+
 def run_task(task, tier, seed, col):
+    if task["sub"] == "offsetcmp":
+        return run_offsetcmp(task, tier, seed, col)
     {"exact": run_exact, "float": run_float, "forms": run_forms, "errors": run_errors}[task["sub"]](task, tier, seed, col)
 
 
 def replay(sub, case):
+    if sub == "offsetcmp":
+        return case_offsetcmp(case)
     return {"exact": case_exact, "float": case_float, "forms": case_forms, "errors": case_errors}[sub](case)
